@@ -341,12 +341,12 @@ package participle
 //@   ensures errOK(result) && pcInv(ctx) && ctx.tokens == old(ctx.tokens) && ctx.elide == old(ctx.elide)
 //@   ensures result == nil ==> ctx.allowTrailing || eofAt(&ctx.PeekingLexer, ctx.nextCursor) [C01]
 
-// Build rejects Elide() names the lexer does not define, so the panic below cannot be reached for a built
-// parser; that link (Build -> every p.elide[k] is a key of p.lex.Symbols()) is by inspection, not proved.
+// Build rejects Elide() names the lexer does not define (proved: Build's postcondition @elide, through the
+// mapping wrapper), so the panic below is unreachable for a built parser: the precondition is the Parser
+// invariant Build establishes (assumed at the entry points, established by the constructor).
 //@ func (*Parser[G]).getElidedTypes [C06 C15]
-//@   requires @assumed p.lex != nil
-//@   allow-panic 1 "unreachable for a built parser: Build validates every Elide() name against the lexer's symbols"
-//@   loop 1 invariant -1 <= rangeindex && rangeindex < len(p.elide)
+//@   requires @assumed p.lex != nil && forall(k, 0, len(p.elide), has(symsOf(p.lex), p.elide[k]))
+//@   loop 1 invariant -1 <= rangeindex && rangeindex < len(p.elide) && symbols == symsOf(p.lex)
 //@   loop 1 decreases len(p.elide) - rangeindex
 
 // ---------------------------------------------------------------------------------------------
@@ -554,13 +554,31 @@ package participle
 // Build itself neither clamps nor defaults it after the options ran. The lexer of the built parser is
 // the options' lexer, wrapped in a mappingLexerDef exactly when mappers were registered.
 //@ global lexer.TextScannerLexer != nil
-//@ func Build [C01 C13 C18 C15]
+// A lexer definition's symbol table is a function of the definition (definitions are immutable once built);
+// the mapping wrapper installed by Build has the symbol table of the definition it wraps.
+//@ spec fn symsOf(d lexer.Definition) map[string]lexer.TokenType = uf("fn_Definition.Symbols_r0", "Int", d)
+//@ interface Definition.Symbols
+//@   params d
+//@   function
+//@   ensures typeis(d, *mappingLexerDef) && d.(*mappingLexerDef) != nil ==> result == symsOf(d.(*mappingLexerDef).l)
+//@ func (*mappingLexerDef).Symbols [C06]
+//@   implements Definition.Symbols
+//@   requires m != nil && m.l != nil
+
+// symsWrap restates, for a wrapper that is not being called, what (*mappingLexerDef).Symbols is proved to return.
+//@ lemma symsWrap(w *mappingLexerDef)
+//@   axiom
+//@   requires w != nil
+//@   ensures symsOf(iface(w)) == symsOf(w.l)
+//@ func Build [C01 C13 C18 C15 C06]
+//@   use symsWrap(parser.lex.(*mappingLexerDef)) at exit
 //@   requires forall(k, 0, len(options), options[k] != nil)
 //@   modifies family(strct)
 //@   let la int = p.useLookahead after call Definition.Symbols#1
 //@   let lx lexer.Definition = p.lex after call Definition.Symbols#1
 //@   let nm int = len(p.mappers) after call Definition.Symbols#1
 //@   ensures err == nil ==> parser != nil && parser.useLookahead == la
+//@   ensures @elide err == nil ==> parser.lex != nil && forall(k, 0, len(parser.elide), has(symsOf(parser.lex), parser.elide[k])) [C06]
 //@   ensures err == nil && len(options) == 0 ==> parser.useLookahead == 1
 //@   ensures err == nil && nm == 0 ==> parser.lex == lx
 //@   ensures err == nil && nm > 0 ==> typeis(parser.lex, *mappingLexerDef) && parser.lex.(*mappingLexerDef).l == lx && parser.lex.(*mappingLexerDef).mapper != nil
@@ -569,7 +587,8 @@ package participle
 //@   loop 1 invariant rangeindex >= 0 ==> p.lex != nil
 //@   loop 1 invariant rangeindex == -1 ==> p.lex != nil
 //@   loop 1 decreases len(options) - rangeindex
-//@   loop 2 invariant -1 <= rangeindex && rangeindex < len(p.elide)
+//@   loop 2 invariant -1 <= rangeindex && rangeindex < len(p.elide) && symbols == symsOf(p.lex)
+//@   loop 2 invariant forall(k, 0, rangeindex+1, has(symbols, p.elide[k]))
 //@   loop 2 decreases len(p.elide) - rangeindex
 //@   loop 3 invariant -1 <= rangeindex && rangeindex < len(p.mappers) && mappers != nil
 //@   loop 3 decreases len(p.mappers) - rangeindex
